@@ -63,6 +63,11 @@ pub fn matches<'a>(known: &'a [Known], property: &str, scenario: &str, class: &s
     known.iter().find(|k| k.status == "known" && k.property == property && glob(&k.scenario, scenario) && glob(&k.class, class) && glob(&k.site, site) && (k.detail.is_empty() || glob(&k.detail, detail)))
 }
 
+/// Index of the matching `known` entry (see `matches`).
+pub fn match_index(known: &[Known], property: &str, scenario: &str, class: &str, site: &str, detail: &str) -> Option<usize> {
+    known.iter().position(|k| k.status == "known" && k.property == property && glob(&k.scenario, scenario) && glob(&k.class, class) && glob(&k.site, site) && (k.detail.is_empty() || glob(&k.detail, detail)))
+}
+
 #[cfg(test)]
 mod tests {
     use super::glob;
